@@ -263,11 +263,12 @@ def compare_vector_lockstep(ctx, vlines, vposts):
                 ok = False
         if ok:
             continue
-        mg = []
+        exc = False
         for c in range(ncomp):
             if len(pres[c][1]) == len(qd):
-                p2lib.paper_step(dict(p=qd, N=pres[c][0], q=list(pres[c][1]), n=[int(t) + 1 for t in pres[c][2]]), xs[c], margins=mg)
-        if mg and min(mg) < 1e-9:
+                rd = ps[c::ncomp] != posts[c][2]
+                exc = exc or p2lib.excusable(rd, pres[c], qd, xs[c])
+        if exc:
             ctx.count('vector_lockstep_ambiguous_under_rounding')
         else:
             ctx.disagree('p2-array-model-lockstep', case, dict(step=i, post=posts), ml[:400])
